@@ -145,6 +145,7 @@ theorem fdiv_ofNat_one (a : Nat) (h : a < 2 ^ 53) : fdiv (ofNat a) one = ofNat a
   rw [this]; rfl
 
 theorem fge_one_one : fge one one = true := by decide +kernel
+theorem fle_one_one : fle one one = true := by decide +kernel
 theorem fgt_one_one : fgt one one = false := by decide +kernel
 theorem feq_one_one : feq one one = true := by decide +kernel
 theorem ofDecimal_one : ofDecimal 10 1 = one := by decide +kernel
